@@ -389,9 +389,8 @@ fn bogus_is_arg(s: &str) -> bool {
 fn classify_reparse(_s: &str, p1: &str, detail: String) -> Verdict {
     // known-defect variant: printing decodes every escape >= U+00A1 to the raw
     // character, but the parser's plain name characters are alphanumerics, `-`, `_` only
-    if detail.contains("which selector.parse rejects") && p1.chars().any(|c| u32::from(c) >= 0xa1 && !c.is_alphanumeric()) {
-        return Verdict::fail_sig("printed-nonalnum-not-reparsed", detail);
-    }
+    // (repaired in /repo, 4a9f638: no longer an accepted explanation)
+    let _ = p1;
     Verdict::fail(detail)
 }
 
